@@ -138,6 +138,7 @@ func execute(x *explore.Exec, sc *Scn) *result {
 			k := k
 			cl, sv := vnet.Pipe(fmt.Sprintf("c%d", k), fmt.Sprintf("s%d", k), vnet.TCP("192.0.2.9", 4000+k), vnet.TCP("10.0.0.1", 443))
 			sv.Menu = hm.StdMenu(1)
+			sv.EOFWithData = true // the last bytes may arrive together with end-of-stream
 			res.conns = append(res.conns, sv)
 			vsched.GoNamed(fmt.Sprintf("handle%d", k), func() { layer4.VerifHandle(srv, sv) })
 			vsched.GoNamed(fmt.Sprintf("client%d", k), func() {
